@@ -491,15 +491,15 @@ def boundary_expr(t, params=()):
         return True
     if re.search(r"\.span\.(start|end)$", t) and "(" not in t.rsplit(".span.", 1)[1]:
         return True
-    if re.match(r"^line_col_from_span\(.*\)\.(2|3)$", t):
+    if re.match(r"^(line_col_from_span|line_col_in)\(.*\)\.(2|3)$", t):
         return True
     m = re.match(r"^(min|max)\((.*)\)$", t)
     if m:
         parts = _args_top(m.group(2))
         return len(parts) == 2 and all(boundary_expr(x, params) for x in parts)
-    if re.match(r"^index\((compute_line_starts\(self,src\)|line_starts),.*\)$", t):
-        return True
-    m = re.match(r"^Sub\((index\((?:compute_line_starts\(self,src\)|line_starts),.*\)),1\)$", t)
+    if re.match(r"^index\((compute_line_starts\(self,src\)|line_starts),.*\)$", t) or re.match(r"^line_starts\[.*\]$", t):
+        return True     # an element of the line table (a Vec indexed through Index::index, or a slice indexed in place)
+    m = re.match(r"^Sub\((index\((?:compute_line_starts\(self,src\)|line_starts),.*\)|line_starts\[.*\]),1\)$", t)
     if m:
         return True
     return False
@@ -508,7 +508,9 @@ def boundary_expr(t, params=()):
 def r5_renderer_boundaries(ctx):
     n = 0
     fns = [f for f in ctx.lib.fns.values() if f.file == "src/diagnostics.rs" and parent_fn(f.id).startswith(DIAG)]
-    lc = ctx.need(DIAG + "line_col_from_span")
+    # the locator: line_col_from_span(src, start), or line_col_in(src, line_starts, start) once the table is built by the caller
+    lc = ctx.lib.fns.get(DIAG + "line_col_in") or ctx.need(DIAG + "line_col_from_span")
+    start_arg = next((i for i in range(1, lc.argc + 1) if lc.locals[i]["name"] == "start"), lc.argc) - 1
     for fn in fns:
         ctx.touch(fn)
         params = ("start",) if fn.id == lc.id else ()
@@ -546,7 +548,7 @@ def r5_renderer_boundaries(ctx):
     ctx.floor("source slices in the diagnostic renderer", n, 7)
     # the parameter `start` of line_col_from_span is filled with a boundary by every caller
     for c in ctx.lib.callers_of(lc.id):
-        t = sh(ne(c.fn.deep(c.args[2])))
+        t = sh(ne(c.fn.deep(c.args[start_arg])))
         if boundary_expr(t):
             ctx.ok("line_col_from_span|arg|%s" % c.fn.id.split("::")[-1], c.fn.where(c.block), "called with %s" % t[-40:])
         else:
@@ -848,7 +850,15 @@ def r5b_renderer_indexes_stay_inside(ctx):
                         verdict = "ok"
                     elif v == "offbyone" and verdict != "ok":
                         verdict = "offbyone"
-                if verdict != "ok" and "memchr" in sh(ne(fn.deep(t["ops"][1]))):
+                dtxt = sh(ne(fn.deep(t["ops"][1])))
+                m2 = re.match(r"^unwrap_or_else\(binary_search\((\w+),.*\),\{closure#\d+\}.*\)$", dtxt)
+                if verdict != "ok" and m2 and m2.group(1) == arr:
+                    # the result of a binary search of the same table: Ok(i) is below the length, Err(x) is an insertion point
+                    # (<= length) that the fallback lowers by one; the table starts with 0 (checked by R5), so x >= 1
+                    clo = [g for g in ctx.lib.closures_of(fn.id)]
+                    if any(re.search(r"Sub\w*\(", g.dump()) for g in clo):
+                        verdict = "ok"
+                if verdict != "ok" and "memchr" in dtxt:
                     # a search result: in bounds once it differs from the length
                     for op, a, bb, S in facts:
                         if {sh(a), sh(bb)} & {sh(ix)} and {sh(a), sh(bb)} & {sh(bd) for bd in bounds} and op in ("Ne", "Lt"):
@@ -863,8 +873,66 @@ def r5b_renderer_indexes_stay_inside(ctx):
     ctx.floor("checked indexes in the diagnostics renderer", n, 2)
 
 
+def r10_front_end_memory_is_linear(ctx):
+    """The arenas give nothing back until the stage ends, so anything the front end allocates per token or per diagnostic must
+    be sized by that token / diagnostic - never by the whole text.  Two places where size times count meets the arena's
+    capacity on inputs of a few kilobytes: (a) the table of line starts (one word per line, built by a scan of the whole text)
+    is built once per rendering, not once per located position; (b) the buffer for an escaped string literal is reserved for
+    the rest of the line, not for the rest of the file."""
+    from .c03 import natural_loop
+    cls = ctx.lib.fns.get(DIAG + "compute_line_starts")
+    n = 0
+    if cls is not None:
+        def in_loop(fn, block):
+            return any(block in natural_loop(fn, H) for H in sorted(fn.live) if fn.dominates(H, block))
+
+        def per_item(fn, block, depth=0, seen=()):
+            if in_loop(fn, block):
+                return "%s calls it inside a loop" % parent_fn(fn.id).split("::")[-1]
+            if depth >= 4 or fn.id in seen:
+                return None
+            for c in ctx.lib.callers_of(parent_fn(fn.id)) if "{closure" in fn.id else ctx.lib.callers_of(fn.id):
+                why = per_item(c.fn, c.block, depth + 1, seen + (fn.id,))
+                if why:
+                    return "%s <- %s" % (parent_fn(fn.id).split("::")[-1], why)
+            # a closure runs as often as the adaptor it is handed to calls it: look at where it is built
+            if "{closure" in fn.id:
+                for par, b, _rv in ctx.lib.closure_sites(fn):
+                    why = per_item(par, b, depth + 1, seen + (fn.id,))
+                    if why:
+                        return why
+                return "%s runs inside an iterator adaptor" % fn.id.split("::")[-2]
+            return None
+        for c in ctx.lib.callers_of(cls.id):
+            n += 1
+            ctx.touch(c.fn)
+            why = per_item(c.fn, c.block)
+            key = "line-table|%s" % parent_fn(c.fn.id).split("::")[-1]
+            if why:
+                ctx.bad(key + "|per-position", c.fn.where(c.block), "the line-start table - a scan of the whole text, and memory proportional to it that the arena never gives back - is rebuilt for every position that is located (%s): rendering costs text size x number of diagnostics, and a 4 KB text with 2000 lexical errors, or a valid 8 KB program with 500 unused variables, aborts with 'memory allocation failed' instead of being reported or run" % why)
+            else:
+                ctx.ok(key, c.fn.where(c.block), "built once per rendering")
+        ctx.floor("builders of the line-start table", n, 1)
+    m = 0
+    for fn in lexer_bodies(ctx):
+        for c in fn.calls():
+            short = (c.callee or "").split("::")[-1]
+            if short not in ("reserve", "reserve_exact", "with_capacity_in", "with_capacity"):
+                continue
+            size = sh(ne(fn.deep(c.args[1] if short.startswith("reserve") else c.args[0])))
+            m += 1
+            ctx.touch(fn)
+            key = "token-buffer|%s|%s" % (parent_fn(fn.id).split("::")[-1], short)
+            rest = re.search(r"len\(index\(self\.src,Range(?:From)?::Range(?:From)?\{[^}]*self\.pos[^}]*\}\)\)|Sub\(self\.len,self\.pos\)|\blen\(bytes\)|len\(self\.src\)|self\.len\b", size)
+            if rest and "memchr" not in size:
+                ctx.bad(key + "|rest-of-input", fn.where(c.block), "%s reserves `%s` bytes for one token: the rest of the file, taken from an arena that gives nothing back - every string literal with an escape costs 'remaining file size', so a valid 86 KB program of `shout(\"a\\n\")` lines aborts in the lexer with 'memory allocation failed'" % (parent_fn(fn.id).split("::")[-1], size[:60]))
+            else:
+                ctx.ok(key, fn.where(c.block), "sized by `%s`" % size[:50])
+    ctx.floor("buffers reserved by the scanner", m, 1)
+
+
 RULES = [("C07-R1", r1_cursor_discipline), ("C07-R2", r2_unchecked_reslicing), ("C07-R2b", r2b_byte_reads_in_bounds), ("C07-R2c", r2c_template_reads_in_bounds), ("C07-R5", r5_renderer_boundaries),
-         ("C07-R3", r3_parser_position_free), ("C07-R3b", r3b_parser_spans_are_ordered), ("C07-R4", r4_recovery_progress), ("C07-R8", r8_local_ranges_cover_ids), ("C07-R9", r9_bitset_indexes_agree), ("C07-R5b", r5b_renderer_indexes_stay_inside)]
+         ("C07-R3", r3_parser_position_free), ("C07-R3b", r3b_parser_spans_are_ordered), ("C07-R4", r4_recovery_progress), ("C07-R8", r8_local_ranges_cover_ids), ("C07-R9", r9_bitset_indexes_agree), ("C07-R5b", r5b_renderer_indexes_stay_inside), ("C07-R10", r10_front_end_memory_is_linear)]
 
 EXPLANATION = (
     "R1 cursor discipline: every write to Lexer.pos is classified by the shape of its right-hand side and must carry its "
@@ -886,6 +954,9 @@ EXPLANATION += (
 )
 EXPLANATION += (
     ' R3b also: the end of a combined span never comes from a placeholder span (`Range::default()`, 0..0) while its start is a position read from the token stream (tuple components and plain copies are followed to where the span was obtained).'
+)
+EXPLANATION += (
+    ' R10: front-end memory is linear in the input - (a) no builder of the line-start table is reached per located position (inside a loop, or from a function or closure that is, four call levels), (b) no scanner buffer is reserved with a size derived from the rest of the input (D38, D39 found and repaired). R5b accepts an index that is the result of a binary search of the same table.'
 )
 ASSUMPTIONS = ["the input is a &str (valid UTF-8)", "memchr2 returns an index <= haystack length"]
 TRUSTED = ["rustc nightly MIR", "nsx exporter", "nsverif expression reconstruction / staleness computation"]
